@@ -1,6 +1,8 @@
 package main
 
 import (
+	"reflect"
+
 	"github.com/jmeaster30/vore/libvore/bytecode"
 	"github.com/jmeaster30/vore/libvore/engine"
 )
@@ -8,51 +10,35 @@ import (
 // H1 binding: per-step instruction counting, instruction-kind coverage and an
 // in-process step budget (aborted by a sentinel panic that guard() recognises).
 
-var instKindNames = []string{"MatchLiteral", "MatchCharClass", "MatchVariable", "MatchRange", "CallSubroutine", "Branch",
-	"StartNotIn", "EndNotIn", "FailNotIn", "StartLoop", "StopLoop", "StartVarDec", "EndVarDec", "StartSubroutine", "EndSubroutine", "Jump", "other"}
-
+// instruction kinds are recorded by the dynamic type name of the instruction (no compile-time
+// dependency on the individual instruction types)
 var (
-	stepCount   int64
-	stepBudget  int64 // 0 = unlimited
-	instKindSet uint32
+	stepCount    int64
+	stepBudget   int64 // 0 = unlimited
+	instKindIdx  = map[reflect.Type]int{}
+	instKindName []string
+	instKindSet  uint64
 )
 
 func instKind(inst bytecode.SearchInstruction) int {
-	switch inst.(type) {
-	case bytecode.MatchLiteral:
-		return 0
-	case bytecode.MatchCharClass:
-		return 1
-	case bytecode.MatchVariable:
-		return 2
-	case bytecode.MatchRange:
-		return 3
-	case bytecode.CallSubroutine:
-		return 4
-	case bytecode.Branch:
-		return 5
-	case bytecode.StartNotIn:
-		return 6
-	case bytecode.EndNotIn:
-		return 7
-	case bytecode.FailNotIn:
-		return 8
-	case bytecode.StartLoop:
-		return 9
-	case bytecode.StopLoop:
-		return 10
-	case bytecode.StartVarDec:
-		return 11
-	case bytecode.EndVarDec:
-		return 12
-	case bytecode.StartSubroutine:
-		return 13
-	case bytecode.EndSubroutine:
-		return 14
-	case bytecode.Jump:
-		return 15
+	t := reflect.TypeOf(inst)
+	if i, ok := instKindIdx[t]; ok {
+		return i
 	}
-	return 16
+	i := len(instKindName)
+	if i >= 63 {
+		return 63
+	}
+	name := "nil"
+	if t != nil {
+		name = t.Name()
+		if name == "" {
+			name = t.String()
+		}
+	}
+	instKindIdx[t] = i
+	instKindName = append(instKindName, name)
+	return i
 }
 
 func installStepHook() {
@@ -66,7 +52,7 @@ func installStepHook() {
 }
 
 func flushInstKinds(c *Ctx) {
-	for i, n := range instKindNames {
+	for i, n := range instKindName {
 		if instKindSet&(1<<uint(i)) != 0 {
 			c.SetAdd("vm_instruction_kinds", n)
 		}
